@@ -237,6 +237,55 @@ class Gen:
                           '[2,"b","Heartbeat",{}]'))
         return cases
 
+    def stratum_kinds(self, per_kind=None):
+        """every KIND of violation, deterministically: for each schema keyword (and the integral-float variant of
+        `type: integer`) the first `per_kind` single-violation instances over all actions of both versions, as an
+        invalid inbound CALL and as an invalid handler result; every multipleOf position of the 1.6 decimal messages"""
+        per_kind = per_kind or (3 if self.tier == "quick" else 12)
+        cases = []
+        seen_req, seen_res = {}, {}
+        for version in ("1.6", "2.0.1"):
+            for action in sorted(self.actions[version]):
+                reqs = self.instances(version, action, "req")
+                resps = self.instances(version, action, "resp")
+                valid_reqs = [i for i in reqs if not i[2] and isinstance(i[1], dict)]
+                valid_resps = [i for i in resps if not i[2] and isinstance(i[1], dict)]
+                if not valid_reqs or not valid_resps:
+                    continue
+                for (pool, seen, side) in ((reqs, seen_req, "req"), (resps, seen_res, "res")):
+                    for b in pool:
+                        if len(b[2]) != 1 or not isinstance(b[1], dict):
+                            continue
+                        kw = b[2][0][1].split(":")[0]
+                        if b[0] == "viol:type-intfloat":
+                            kw = "type-intfloat"
+                        elif kw == "type":
+                            kw = "type-" + str(b[0])
+                        if side == "res" and "null" in json.dumps(b[1]):
+                            continue
+                        decimal_pos = kw == "multipleOf" and version == "1.6"
+                        key = (version, kw)
+                        if seen.get(key, 0) >= per_kind and not decimal_pos:
+                            continue
+                        seen[key] = seen.get(key, 0) + 1
+                        if side == "req":
+                            mine = self.route(action, ("ret", snake(valid_resps[0][1])), after=("ret",))
+                            raw = self.frame("k-%d" % len(cases), action, b[1])
+                        else:
+                            mine = self.route(action, ("ret", snake(b[1])), after=("ret",))
+                            raw = self.frame("k-%d" % len(cases), action, valid_reqs[0][1])
+                        info = {"tags": b[2]}
+                        if len(cases) % 2:
+                            # another endpoint class of the process declares the SAME handler names for the same action
+                            # but opts out of validation (defined before or after ours): that is its business only
+                            import copy as _copy
+                            twin = _copy.deepcopy(mine)
+                            twin["skip"] = True
+                            twin["defined_after"] = len(cases) % 4 == 1
+                            info["prelude"] = [twin]
+                        cases.append(("bad-req" if side == "req" else "bad-res", version, [mine], raw, info))
+        return cases
+
     def all_cases(self):
         full = self.tier == "thorough"
         cases = self.stratum_handled("all" if full else 14)
